@@ -414,8 +414,49 @@ def digest_of(x) -> str:
 
 
 # ------------------------------------------------------------------------------- executing one op
+_FINALLY_LINES: dict = {}
+
+
+def finally_lines(filename):
+    """Line numbers of cleanup code in a source file: bodies of `finally:` clauses and the header lines of `with` statements."""
+    got = _FINALLY_LINES.get(filename)
+    if got is None:
+        import ast
+
+        got = set()
+        try:
+            with open(filename, encoding="utf-8") as f:
+                tree = ast.parse(f.read())
+            for node in ast.walk(tree):
+                if isinstance(node, (ast.Try, getattr(ast, "TryStar", ast.Try))) and node.finalbody:
+                    got.update(range(node.finalbody[0].lineno, (node.finalbody[-1].end_lineno or node.finalbody[-1].lineno) + 1))
+                elif isinstance(node, (ast.With, ast.AsyncWith)):
+                    # CPython attributes the call of __exit__ on the way out of the block to the line of the `with`
+                    # statement: a line event there may be the cleanup itself (bpo-29988)
+                    got.update(range(node.lineno, node.body[0].lineno))
+        except Exception:  # noqa: BLE001
+            pass
+        _FINALLY_LINES[filename] = got
+    return got
+
+
+def in_cleanup(frame, root):
+    """Is any tatsu frame on the stack executing the body of a `finally:` clause (or an __exit__)?"""
+    f = frame
+    while f is not None:
+        fn = f.f_code.co_filename
+        if fn.startswith(root):
+            if f.f_lineno in finally_lines(fn) or f.f_code.co_name in ("__exit__", "__aexit__"):
+                return True
+        f = f.f_back
+    return False
+
+
 class Interrupt:
-    """Raise `exc` at the N-th line event inside tatsu frames (a call abandoned at an arbitrary instant)."""
+    """Raise `exc` at the N-th line event inside tatsu frames (a call abandoned at an arbitrary instant).
+
+    Not inside cleanup code: an interrupt that lands while a `finally:` body is running can leave anything half undone in
+    any program; no library can promise otherwise, so the simulator delivers it at the first line after the cleanup."""
 
     def __init__(self, nth, exc, root):
         self.left = nth
@@ -431,7 +472,7 @@ class Interrupt:
     def local(self, frame, event, arg):
         if event == "line" and not self.fired:
             self.left -= 1
-            if self.left <= 0:
+            if self.left <= 0 and not in_cleanup(frame, self.root):
                 self.fired = True
                 raise {"KeyboardInterrupt": KeyboardInterrupt, "MemoryError": MemoryError, "RecursionError": RecursionError}[self.exc]("injected interruption")
         return self.local
@@ -855,7 +896,7 @@ def gen_call(rng, handles, models_only=False, allow_fault=True, focus=None):
             op["sem"] = rng.choice(["id", "tag", "num", "eq", "fa", "fb", "fc"])
             op["fault"] = {"kind": "foreign", "nth": rng.choice([1, 1, 2, 3]), "exc": rng.choice(["KeyError", "ValueError", "TypeError", "SemFault"])}
         else:
-            op["fault"] = {"kind": "interrupt", "nth": rng.choice([1, 3, 10, 30, 100, 300, 1000, 3000]),
+            op["fault"] = {"kind": "interrupt", "nth": int(10 ** rng.uniform(0, 3.7)),
                            "exc": rng.choice(["KeyboardInterrupt", "KeyboardInterrupt", "MemoryError", "RecursionError"])}
     return op
 
@@ -990,7 +1031,7 @@ def gen_pair_history(rng, handles):
                 o["sem"] = rng.choice(["id", "tag", "num", "eq", "fa", "fb", "fc"])
                 o["fault"] = {"kind": "foreign", "nth": 1, "exc": rng.choice(["KeyError", "ValueError", "SemFault"])}
             else:
-                o["fault"] = {"kind": "interrupt", "nth": rng.choice([3, 30, 100, 300, 1000]), "exc": rng.choice(["KeyboardInterrupt", "MemoryError"])}
+                o["fault"] = {"kind": "interrupt", "nth": int(10 ** rng.uniform(0, 3.5)), "exc": rng.choice(["KeyboardInterrupt", "MemoryError"])}
     for _ in range(rng.choice([0, 0, 1, 2])):
         ops.insert(rng.randrange(len(ops) + 1), gen_call(rng, handles, focus=fam))
     # an inserted op may reference a handle created later in the list: keep only well-ordered ones
@@ -1450,6 +1491,128 @@ RULE = ("one case = (spec, schedule): history mode = 3-20 API calls (compile, ta
         "Non-trivial: >=2 calls (history) or >=1 context switch (threads). Distinct: distinct digests of (call labels, result digests, decisions).")
 
 
+# ------------------------------------------------------------------------------- sweep: an interrupt at every line of a call
+SWEEP_SCENARIOS = [
+    # (creator ops, the call that is interrupted at its k-th line, calls made afterwards on the same objects)
+    ([{"op": "load", "g": "choice", "name": "P", "out": "p1"}],
+     {"op": "pparse", "h": "p1", "g": "choice", "text": "a", "sem": "num", "settings": {"trace": True, "colorize": False}},
+     [{"op": "pparse", "h": "p1", "g": "choice", "text": "a"}, {"op": "pparse", "h": "p1", "g": "choice", "text": "42", "start": "num"}]),
+    ([{"op": "load", "g": "typed", "name": "P", "out": "p1"}],
+     {"op": "pparse", "h": "p1", "g": "typed", "text": "1", "asmodel": True, "start": "num"},
+     [{"op": "pparse", "h": "p1", "g": "typed", "text": "1"}, {"op": "pparse", "h": "p1", "g": "typed", "text": "22", "asmodel": True}]),
+    ([{"op": "compile", "g": "typed", "name": None, "asmodel": True, "sem": "none", "settings": {}, "out": "m1"}],
+     {"op": "mparse", "h": "m1", "g": "typed", "text": "1", "settings": {"parseinfo": True}},
+     [{"op": "mparse", "h": "m1", "g": "typed", "text": "22"}, {"op": "compile", "g": "typed", "name": None, "asmodel": True, "sem": "none", "settings": {}, "out": "m2"},
+      {"op": "mparse", "h": "m2", "g": "typed", "text": "1"}]),
+    ([],
+     {"op": "compile", "g": "ref", "name": "A", "asmodel": False, "sem": "none", "settings": {}, "out": "m1"},
+     [{"op": "compile", "g": "ref", "name": "A", "asmodel": False, "sem": "none", "settings": {}, "out": "m2"}, {"op": "mparse", "h": "m2", "g": "ref", "text": "12 ab"},
+      {"op": "parse", "g": "ref", "text": "12 ab", "name": "A", "asmodel": False, "sem": "none", "settings": {}}]),
+    ([],
+     {"op": "parse", "g": "nums", "text": "1.0", "name": None, "asmodel": True, "sem": "none", "settings": {}},
+     [{"op": "parse", "g": "nums", "text": "1", "name": None, "asmodel": True, "sem": "none", "settings": {}},
+      {"op": "parse", "g": "typed_b", "text": "1", "name": None, "asmodel": True, "sem": "none", "settings": {}}]),
+    ([{"op": "compile", "g": "kw", "name": None, "asmodel": False, "sem": "none", "settings": {}, "out": "m1"}],
+     {"op": "mparse", "h": "m1", "g": "kw", "text": "x", "sem": "eq", "settings": {"ignorecase": True}},
+     [{"op": "mparse", "h": "m1", "g": "kw", "text": "IF"}, {"op": "mparse", "h": "m1", "g": "kw", "text": "x", "sem": "tag"}]),
+]
+
+
+def count_lines(creators, call):
+    """How many line events of tatsu frames the call executes in a fresh process (after its creators)."""
+    def work():
+        H = {}
+        for c in creators:
+            exec_op(c, H)
+        root = tatsu_root()
+        n = [0]
+
+        def local(frame, event, arg):
+            if event == "line":
+                n[0] += 1
+            return local
+
+        def glob(frame, event, arg):
+            return local if event == "call" and frame.f_code.co_filename.startswith(root) else None
+
+        sys.settrace(glob)
+        try:
+            try:
+                exec_op(dict(call), H)
+            except BaseException:  # noqa: BLE001
+                pass
+        finally:
+            sys.settrace(None)
+        return n[0]
+
+    return fork_eval(work)
+
+
+def _sweep_task(args):
+    spec, seed = args
+    try:
+        rr = run(spec, Decider(seed=seed))
+    except HarnessError as e:
+        if "timed out" not in str(e):
+            raise
+        # the history (or a reference) never came back: a call that does not return is a violation in its own right
+        rr = RunResult()
+        rr.violation = {"clause": "no-progress", "detail": f"{e}: a call of this history did not return within the time limit",
+                        "signature": f"{PROP}:no-progress:call-never-returned"}
+        rr.digest = digest_of(spec)
+    return {"violation": rr.violation, "digest": rr.digest, "spec": spec, "seed": seed,
+            "delivered": bool(rr.probes.get("interrupt_delivered"))}
+
+
+def interrupt_sweep(tier, seed, procs, total):
+    """The property says 'after earlier failed parses on the same model or parser object': done literally for the harshest
+    failure — the call abandoned at its k-th executed line, for every k (quick: a stride) — followed by ordinary calls on
+    the same objects, each compared with the same call in a fresh process."""
+    import multiprocessing
+    from concurrent.futures import ProcessPoolExecutor
+
+    from . import runner
+
+    t0 = time.time()
+    ensure_zygote()
+    scenarios = SWEEP_SCENARIOS if tier != "quick" else [SWEEP_SCENARIOS[(seed + i) % len(SWEEP_SCENARIOS)] for i in range(2)]
+    budget = 260 if tier == "quick" else 24_000
+    tasks = []
+    lines = []
+    for creators, call, after in scenarios:
+        L = count_lines(creators, call)
+        lines.append(L)
+        stride = max(1, -(-L // (budget // len(scenarios))))
+        first = 1 + (seed % stride)
+        for k in range(first, L + 1, stride):
+            for exc in (("KeyboardInterrupt",) if tier == "quick" else ("KeyboardInterrupt", "MemoryError")):
+                c = dict(call)
+                c["fault"] = {"kind": "interrupt", "nth": k, "exc": exc}
+                tasks.append(({"property": PROP, "mode": "history", "ops": [*copy.deepcopy(creators), c, *copy.deepcopy(after)]}, seed))
+    stats = {"sweep_scenarios": len(scenarios), "sweep_call_lines": lines, "sweep_runs": 0, "sweep_interrupts_delivered": 0}
+    scratch = runner.make_scratch()
+    try:
+        ctx = multiprocessing.get_context("fork")
+        with ProcessPoolExecutor(max_workers=procs, mp_context=ctx, initializer=runner._worker_init, initargs=(PROP, scratch, True)) as ex:
+            for res in ex.map(_sweep_task, tasks, chunksize=4):
+                stats["sweep_runs"] += 1
+                stats["sweep_interrupts_delivered"] += 1 if res["delivered"] else 0
+                total["runs"] += 1
+                total["nontrivial"] += 1
+                total["digests"].add(res["digest"])
+                if res["violation"] is not None:
+                    b = runner.sig_base(res["violation"]["signature"])
+                    total["violation_counts"][b] += 1
+                    if total["violation_counts"][b] <= 5:
+                        total["violations"].append({"run": -2, "seed": res["seed"], "spec": res["spec"], "violation": res["violation"]})
+    finally:
+        import shutil
+
+        shutil.rmtree(scratch, ignore_errors=True)
+    stats["sweep_wall_s"] = round(time.time() - t0, 1)
+    return stats
+
+
 # ------------------------------------------------------------------------------- batch over 3 hash-seed families
 FAMILY_HASHSEEDS = ["0", "1", "31337"]
 
@@ -1553,9 +1716,21 @@ def batch(tier, seed, cfg, procs):
             json.dump({"property": PROP, "kind": "fresh-process results differ between PYTHONHASHSEED values", "descriptor": json.loads(k),
                        "digests": {hs: r[k] for hs, r in zip(FAMILY_HASHSEEDS, refs)}}, open(path, "w"), indent=1)
             new.append({"signature": f"{PROP}:process-dependent:hashseed", "replay": path, "detail": k[:300], "seed": seed})
+        sweep_total = {"runs": 0, "nontrivial": 0, "digests": set(), "violations": [], "violation_counts": Counter(), "harness_errors": []}
+        sweep_stats = interrupt_sweep(tier, seed, procs, sweep_total)
+        total["runs"] += sweep_total["runs"]
+        total["nontrivial"] += sweep_total["nontrivial"]
+        total["digests"].update(sweep_total["digests"])
+        if sweep_total["violations"]:
+            k2, n2 = runner.triage(PROP, sweep_total, minimise_budget=40.0, max_reports=2)
+            for k, v in k2.items():
+                known.setdefault(k, {"entry": v["entry"], "count": 0})
+                known[k]["count"] += v["count"]
+            new.extend(n2)
+            total["harness_errors"].extend(sweep_total["harness_errors"])
         total["wall_s"] = time.time() - t0
         mod = sys.modules[__name__]
-        extra = {"hash_seed_families": FAMILY_HASHSEEDS, "reference_calls_evaluated": sum(len(r) for r in refs),
+        extra = {**sweep_stats, "hash_seed_families": FAMILY_HASHSEEDS, "reference_calls_evaluated": sum(len(r) for r in refs),
                  "reference_calls_compared_across_hash_seeds": len(common), "reference_disagreements": len(disagree)}
         runner.write_evidence(PROP, tier, seed, total, known, new, mod, extra=extra)
         print(f"[{PROP}] runs={total['runs']} nontrivial={total['nontrivial']} distinct={len(total['digests'])} wall={total['wall_s']:.1f}s "
